@@ -18,7 +18,8 @@ CHECKS = {
             "DESIGN.md section 3, C14"),
     "C13": ("exploration",
             "lock-step comparison with a std::vector model after every operation (exhaustive DFS + seeded random walks), "
-            "canaries, ASan+UBSan, sbepp assertion handler",
+            "canaries, ASan+UBSan, sbepp assertion handler; the same operation sequences evaluated in forced constant "
+            "expressions (C++20/2b) and compared with the run-time execution and the model",
             "Every dynamic_array_ref mutator and reader is driven through all operation sequences to depth 2 (quick) / 3 "
             "(thorough) from every state of size <= 3 and through long random sequences, for all 24 length-type x "
             "element-type x byte-order instantiations; after each transition prefix, payload, returned iterator, "
@@ -53,8 +54,9 @@ CHECKS = {
             "NaN-aware reading of 'is null'; float literals converted like the compiler does (text->double->float)",
             "DESIGN.md section 3, C16"),
     "C20": ("fault_enumeration",
-            "LD_PRELOAD fault injection at every output-directed libc call of the release binary, one fault per run; "
-            "exit status and on-disk bytes compared with the fault-free run",
+            "LD_PRELOAD fault injection at every output-directed libc call of the release binary (mkdir, fopen, write, writev, "
+            "rename/link), one fault per run, plus obstructed destinations in populated trees; exit status and on-disk bytes "
+            "compared with the fault-free run",
             "Every single mkdir/fopen/write/writev call sbeppc makes towards the output directory (counted by a dry run) is "
             "made to fail with ENOSPC/EACCES/EIO, to write short, and to write short then fail, for several schemas; "
             "INJECTED => exit != 0 with a diagnostic, exit 0 => byte-identical files. Complete over single faults at "
@@ -113,19 +115,24 @@ CHECKS = {
             "generator domain of DESIGN 2.2 (unsigned level headers, ids/block lengths representable in header members, depth <= 3); the python reference model is the trusted oracle; g++12/clang++14; stop points sampled beyond 40 (quick) / 400 (thorough) callbacks",
             "DESIGN.md section 3, C19"),
     "C09": ("exploration",
-            "mutation fuzzing of the ASan+UBSan+assert build of sbeppc with a process-level monitor (wait status, sanitizer/"
-            "assert output, diagnostic line, output directory)",
+            "mutation fuzzing and coverage-guided fuzzing (libFuzzer) of the ASan+UBSan+assert build of sbeppc (fmt compiled "
+            "in, so its reads are instrumented) with a process-level monitor (wait status, sanitizer/assert output, "
+            "diagnostic line, output directory)",
             "Thousands (quick) to hundreds of thousands (thorough) of structure-aware and byte-level mutants of valid "
-            "schemas, include graphs and an argv grammar are run through the instrumented sbeppc; every run must end with "
+            "schemas (every third spread over XIncluded files), include graphs, a typed attribute sweep and an argv grammar are "
+            "run through the instrumented sbeppc, plus a coverage-guided leg on the in-process main(); every run must end with "
             "exit 0, or with a non-zero status, an Error line and no generated file. Held on the inputs tried.",
             "one process per input; 25 s watchdog (retry at 75 s) and 3 GB RSS cap decide hang / out-of-memory",
             "DESIGN.md section 3, C09"),
     "C08": ("exploration",
-            "single rule-breaking / boundary-valid edits of valid schemas run through the instrumented sbeppc; exit status, "
-            "diagnostic location and output directory compared with the verdict the edit implies",
-            "Each listed rule is broken by exactly one edit at every applicable position class (top level, nested group, "
-            "public and inline composite, ref target, header) and the matching boundary-valid edit is applied too; accept "
-            "<=> exit 0 (not a regex over the output), rejects must be located and leave no file.",
+            "single rule-breaking / boundary-valid edits of valid schemas run through the instrumented sbeppc, as one file and "
+            "as XInclude multi-file forms; exit status, diagnostic location and output directory compared with the verdict "
+            "the edit implies",
+            "Each rule sbeppc enforces is broken by exactly one edit at every applicable position class (top level, nested "
+            "group, public and inline composite, ref target, header; fixtures for valueRef, constant, encoding-kind and "
+            "cross-file duplicate rules) and the matching boundary-valid edit is applied too; accept <=> exit 0 (not a regex "
+            "over the output), rejects must be located (in an existing file, at an element start) and leave no file; the "
+            "multi-file form of every text must get the same verdict and the same set of generated files.",
             "verdicts follow from the edit class; position sampling capped per rule and schema",
             "DESIGN.md section 3, C08"),
     "C07": ("exploration",
